@@ -1,5 +1,6 @@
 import BinlogVerif.Lemmas.Split
 import BinlogVerif.Lemmas.Reader
+import BinlogVerif.Reader.Bread
 /-
   C12 — Truncated logs: every whole entry before the cut is read, then a clean error.
 
@@ -230,6 +231,33 @@ theorem c12_prefix_events (ps : List Bytes) (hok : ∀ p ∈ ps, PayloadOk p) (n
     (hn : n ≤ (frames ps).length) (st : ReaderState) :
     readAll st (splitEntries ((frames ps).take n)).1 = readAll st (ps.take (wholeCount ps n)) := by
   rw [(c12_prefix ps hok n hn).1]
+
+/-- **C12 for `TextOutputStream`** (an output that parses what it receives): handing it a prefix of a well-formed log
+    that is cut anywhere leaves on the output exactly what handing it the whole entries before the cut leaves there — every
+    event that lies entirely inside the prefix is printed, with the same reader state afterwards — and, unless an earlier
+    entry already made the call throw (or a null entry ended it), the call throws iff the cut is not on an entry boundary. -/
+theorem c12_textout_prefix (fmt dateFmt : Bytes) (ps : List Bytes) (hok : ∀ p ∈ ps, PayloadOk p) (n : Nat)
+    (hn : n ≤ (frames ps).length) (st : ReaderState) (out : Bytes) :
+    let whole := ps.take (wholeCount ps n)
+    let r := Bread.textOutWrite fmt dateFmt st out ((frames ps).take n)
+    let w := Bread.textOutEntries fmt dateFmt st whole out
+    r.1 = w.1 ∧ r.2.1 = w.2.1 ∧
+    (w.2.2.1 = none → w.2.2.2 = false →
+      (r.2.2 = none ↔ n = (frames whole).length)) := by
+  obtain ⟨h1, h2, h3⟩ := c12_prefix ps hok n hn
+  simp only [Bread.textOutWrite]
+  rcases hsr : splitEntries (List.take n (frames ps)) with ⟨qs, c, t⟩
+  rw [hsr] at h1 h2 h3
+  simp only at h1 h2 h3
+  subst h1
+  rcases hw : Bread.textOutEntries fmt dateFmt st (List.take (wholeCount ps n) ps) out with ⟨s', o', e', stp⟩
+  simp only
+  refine ⟨trivial, trivial, ?_⟩
+  intro he hs
+  subst he; subst hs
+  simp only [Bool.false_eq_true, if_false]
+  rw [← h3]
+  cases t <;> simp
 
 /-! Non-vacuity: a two-entry log cut in the size field, in the payload, and on a boundary. -/
 def l2 : List Bytes := [[1,2,3,4,5,6,7,8], [9,9,9,9,9,9,9,9,9]]
